@@ -1,5 +1,8 @@
 """C03 restrict keeps exactly the samples inside the closed intervals, rows intact."""
+import os
 import random
+import shutil
+import tempfile
 import warnings
 
 import numpy as np
@@ -57,7 +60,20 @@ def run(res, tier, seed):
                 "restrict(ep).restrict(ep2) = exact filter by both and = restrict(ep.intersect(ep2)) on samples farther than 1us from every endpoint, "
                 "constructor(time_support=) in s/ms/us and on shuffled timestamps; TsGroup.restrict member-wise (Ts and Tsd members, member supports) for a group "
                 "whose support is wide / the default union / the complement of ep (ep fills the gaps of the support and shares all its endpoints with it). "
-                "non-trivial = at least one sample and one interval; distinct = distinct (ts, ep)")
+                "non-trivial = at least one sample and one interval; distinct = distinct (ts, ep). "
+                "WIDENED FORMS (forms_case on every public pick in the quick tier and every second one in the thorough tier, group_forms on every second of those; every choice from random.Random(f(seed, pick)); same oracle, plus dtype of the rows): "
+                "axis 1 data dtype float64/float32/int64..int8/uint8..uint64/bool, content distinct rows / NaN,+inf,-inf / all equal / zeros / a strided view / the time array itself / a lazily loaded array-like with load_array=False / a nested Python list. "
+                "axis 2 timestamps as ndarray, list, tuple, pd.Index, pd.Series, Tsd(pd.Series), TsdFrame(pd.DataFrame), another object's TsIndex or .t, int64/uint64/int8..uint32 arrays and int lists (whole units only), "
+                "float32 (only when exact to 0.25 ns), Python/numpy scalars for one sample; IntervalSets given as arrays, keywords, lists, tuples, Series, (m,2) array, list of pairs, DataFrame with a metadata column, a copy, with metadata=, "
+                "integer/unsigned/float32 arrays, scalars incl. 0-d arrays, TsIndex / .t of another object, strided views of one buffer; one in four is then intersected / united with itself, cut out of a longer set by slicing, or saved and loaded. "
+                "axis 3 every constructor and restrict called positionally and by keyword, time_support=None spelt out, load_array True/False, columns / metadata given or not, TsGroup(data, time_support, time_units, bypass_check, metadata) positional or keyword, options combined at random. "
+                "axis 4 timestamps and IntervalSets in s / ms / us (same instants). axis 5 placement: the case scaled to a whole-ms or whole-s lattice and shifted by +-1e5 s (on top of the 0 / -3us / -10ms translations). "
+                "axis 6 one-sample and all-equal series, empty series, empty / one / many intervals, TsGroup with no member, one member, an empty member; keys unsorted ints, strings, floats, numpy ints, multi-digit strings, list input. "
+                "axis 7 the four series classes in turn; TsdFrame columns default / strings / unsorted strings / unsorted ints not 0..n-1 / floats / one column from 1-D data / no column / duplicate labels, metadata as dict or DataFrame; TsdTensor of 3, 4 dims and a zero-size axis; "
+                "TsGroup members Ts, Tsd of any dtype, raw arrays / lists in the group's time_units; group metadata as dict, DataFrame, keyword arguments. "
+                "axis 8 the receiver is the result of slice / step / boolean mask / index array / get / restrict(ep2) / restrict(own time_support) / copy / *2 / np.add / save+load / column selection / component / dropna / fillna "
+                "(group: subset, boolean mask, save+load, restrict(ep2)); the same live receiver and argument used twice, receiver / argument / caller's array checked unmodified; bypass_check=True groups. "
+                "Arguments outside the documented signature (non-IntervalSet argument, 0-d t) only have to raise a clean exception or satisfy the statement (misuse_cases).")
     res.exhaustive = True
     cases = list(kernel_cases(tier, seed))
     n_lattice = len(cases) - N_RANDOM[tier]
@@ -114,6 +130,9 @@ def run(res, tier, seed):
     picks = rng.sample(range(n_lattice), 9000 if tier == "thorough" else 1000) + \
         rng.sample(range(n_lattice, len(cases)), 1000 if tier == "thorough" else 100)
     pub = 0
+    forms_every = 1 if tier == "quick" else 2      # widened forms: every pick (quick: 1100), every second pick (thorough: 5000)
+    os.makedirs(C.CACHE, exist_ok=True)
+    tmpdir = tempfile.mkdtemp(prefix="c03-", dir=C.CACHE)
     for n in picks:
         ts, ep = cases[n]
         if pub % 25 == 24:
@@ -139,7 +158,18 @@ def run(res, tier, seed):
         res.evaluations += 1
         if v:
             res.violations.append(v)
+        # the same case through the widened argument forms (own rng stream: the cases above are unchanged)
+        for which in ("forms", "group_forms"):
+            if pub % forms_every or (which == "group_forms" and (pub // forms_every) % 2):
+                continue
+            fv = run_forms(nap, which, ts, ep, ep2, (seed * 104729 + 11) * 1000003 + 2 * pub + (which == "group_forms"), pub, res, tmpdir)
+            res.evaluations += 1
+            res.count(which + "_cases")
+            if fv:
+                res.violations.append(fv)
     res.count("public_cases", pub)
+    res.violations.extend(misuse_cases(nap, res))
+    shutil.rmtree(tmpdir, ignore_errors=True)
 
 
 def _ticks(a):
@@ -325,6 +355,794 @@ def group_case(nap, ts, ep, t, d1, inp, res=None):
     return None
 
 
+# ======================================================================================
+# WIDENED ARGUMENT FORMS (third-round review): the same statement, the same brute-force oracle, on every form the
+# public operations accept.  One `forms_case` per public pick: one receiver class (cycled), every other axis sampled
+# with an rng derived from the seed; `group_forms` does the same for TsGroup.  Nothing here is tolerant: a form that
+# cannot hold the intended instants exactly (integers off the unit lattice, float32 too coarse) is not generated.
+UNIT_TICKS = {"s": 10**9, "ms": 10**6, "us": 10**3}
+CLASSES = ["Ts", "Tsd", "TsdFrame", "TsdTensor"]
+DATA_DTYPES = ["float64", "float32", "int64", "int32", "int16", "int8", "uint8", "uint16", "uint32", "uint64", "bool"]
+CONTENTS = ["index", "index", "nan_inf", "all_equal", "zeros", "strided", "time_alias", "lazy", "py_list"]
+T_FORMS = ["ndarray", "list", "tuple", "pd.Index", "pandas", "TsIndex", "t_of_object", "int64", "uint64", "small_int", "list_int",
+           "float32", "scalar"]
+EP_FORMS = ["arrays", "kw", "lists", "tuples", "series", "pairs2d", "list_of_pairs", "dataframe", "copy", "meta", "int64", "uint64",
+            "small_int", "list_int", "float32", "scalar", "tsindex", "ts_t", "strided"]
+HISTORIES = ["none", "none", "slice", "step", "mask", "intidx", "get", "restrict_ep2", "copy", "arith", "numpy", "saveload", "columns",
+             "component", "dropna", "fillna", "own_support"]
+COLUMN_FORMS = [None, ["a", "b", "c"], ["c", "a", "b"], [5, 2, 9], [1.5, 0.5], ["x"], [], ["a", "a"]]
+TENSOR_SHAPES = [(2, 2), (1, 1), (2, 1, 2), (3, 0)]
+PLACEMENTS = [(1, 0), (1, 0), (1, 10**14), (1, -10**14), (1000, 0), (10**6, 0), (10**6, 10**14), (1000, -10**14)]
+
+
+def _unit_floats(ticks, units):
+    """the instants `ticks` as float64 numbers of `units` (s: the canonical float, = G.arr)"""
+    return np.asarray(ticks, dtype=np.float64) / float(UNIT_TICKS[units]) if len(ticks) else np.array([], dtype=np.float64)
+
+
+def _int_vals(ticks, units, dtype):
+    """whole numbers of `units` in integer dtype `dtype`, or None when these instants are not whole / do not fit"""
+    q = UNIT_TICKS[units]
+    if any(x % q for x in ticks):
+        return None
+    v = [x // q for x in ticks]
+    info = np.iinfo(dtype)
+    if v and (min(v) < info.min or max(v) > info.max):
+        return None
+    return np.array(v, dtype=dtype)
+
+
+def _f32_vals(ticks, units):
+    """float32 numbers of `units`, or None when float32 is too coarse to hold these instants (to a quarter of a ns)"""
+    q = UNIT_TICKS[units]
+    a = _unit_floats(ticks, units).astype(np.float32)
+    if any(abs(float(x) * q - tk) >= 0.25 for x, tk in zip(a, ticks)):
+        return None
+    return a
+
+
+def _small_int(ticks, units):
+    for dt in ("int8", "uint8", "int16", "uint16", "int32", "uint32"):
+        v = _int_vals(ticks, units, dt)
+        if v is not None:
+            return v
+    return None
+
+
+def _time_arg(nap, form, units, ticks, rng):
+    """(argument, actual form name) holding the instants `ticks` in `units`; (None, None) when the form does not apply"""
+    import pandas as pd
+    f = _unit_floats(ticks, units)
+    if form == "ndarray":
+        return f, form
+    if form == "list":
+        return [float(x) for x in f], form
+    if form == "tuple":
+        return tuple(float(x) for x in f), form
+    if form == "pd.Index":
+        return pd.Index(f, dtype="float64"), form
+    if form == "pd.Series":
+        return pd.Series(f, dtype="float64"), form
+    if form in ("TsIndex", "t_of_object", "tsindex", "ts_t"):
+        if units != "s":
+            return None, None
+        o = nap.Ts(G.arr(list(ticks)))
+        return (o.index if form in ("TsIndex", "tsindex") else o.t), form
+    if form in ("int64", "uint64"):
+        return _int_vals(ticks, units, form), form
+    if form == "small_int":
+        v = _small_int(ticks, units)
+        return v, (None if v is None else "small_int:" + str(v.dtype))
+    if form == "list_int":
+        v = _int_vals(ticks, units, "int64")
+        return (None if v is None else [int(x) for x in v]), form
+    if form == "float32":
+        return _f32_vals(ticks, units), form
+    if form == "scalar":
+        if len(ticks) != 1:
+            return None, None
+        sub = rng.choice(["py_float", "py_int", "np.float64", "np.float32", "np.int64", "np.uint8"])
+        if sub == "py_float":
+            return float(f[0]), "scalar:" + sub
+        if sub == "np.float64":
+            return np.float64(f[0]), "scalar:" + sub
+        if sub == "np.float32":
+            v = _f32_vals(ticks, units)
+            return (None if v is None else v[0]), "scalar:" + sub
+        v = _int_vals(ticks, units, {"py_int": "int64", "np.int64": "int64", "np.uint8": "uint8"}[sub])
+        if v is None:
+            return None, None
+        return (int(v[0]) if sub == "py_int" else v[0]), "scalar:" + sub
+    raise ValueError(form)
+
+
+def _pick_time_arg(nap, ticks, rng, forms, allow_units=True):
+    """sample (form, unit) until one applies; ndarray always does"""
+    for _ in range(6):
+        form = rng.choice(forms)
+        units = rng.choice(["s", "s", "ms", "us"]) if allow_units else "s"
+        if form in ("int64", "uint64", "small_int", "list_int") and allow_units and rng.random() < 0.7:
+            units = "us"        # the 1 us lattice is whole in us
+        arg, fname = _time_arg(nap, form, units, ticks, rng)
+        if arg is not None:
+            return arg, fname, units
+    return _unit_floats(ticks, "s"), "ndarray", "s"
+
+
+def _iset_arg(nap, form, units, ep, rng):
+    """(IntervalSet holding the intervals `ep` built through the argument form `form` in `units`, actual form name) or (None, None)"""
+    import pandas as pd
+    st, en = [a for a, _ in ep], [b for _, b in ep]
+    m = len(ep)
+    kw = {} if units == "s" else {"time_units": units}
+    if form in ("arrays", "kw", "lists", "tuples", "series", "pairs2d", "list_of_pairs", "dataframe", "copy", "meta", "strided"):
+        s, e = _unit_floats(st, units), _unit_floats(en, units)
+        if form == "arrays":
+            return (nap.IntervalSet(s, e, units) if rng.random() < 0.5 else nap.IntervalSet(s, e, **kw)), form
+        if form == "kw":
+            return nap.IntervalSet(end=e, start=s, time_units=units, metadata=None), form
+        if form == "lists":
+            return nap.IntervalSet([float(x) for x in s], [float(x) for x in e], **kw), form
+        if form == "tuples":
+            return nap.IntervalSet(tuple(float(x) for x in s), tuple(float(x) for x in e), **kw), form
+        if form == "series":
+            return nap.IntervalSet(pd.Series(s, dtype="float64"), pd.Series(e, dtype="float64"), **kw), form
+        if form == "pairs2d":
+            return (nap.IntervalSet(np.column_stack([s, e]), **kw), form) if m else (None, None)
+        if form == "list_of_pairs":
+            return (nap.IntervalSet([(float(a), float(b)) for a, b in zip(s, e)], **kw), form) if m else (None, None)
+        if form == "dataframe":
+            return nap.IntervalSet(pd.DataFrame({"start": s, "end": e, "lab": ["i%d" % i for i in range(m)]}), **kw), form
+        if form == "copy":
+            return nap.IntervalSet(nap.IntervalSet(s, e, **kw)), form
+        if form == "meta":
+            return nap.IntervalSet(s, e, metadata={"lab": np.arange(m) + 10, "w": ["w%d" % i for i in range(m)]}, **kw), form
+        base = np.full((m, 5), -77.0)           # start / end are strided views of one buffer
+        base[:, 1], base[:, 3] = s, e
+        return nap.IntervalSet(base[:, 1], base[:, 3], **kw), form
+    sa, fa = _time_arg(nap, form, units, st, rng)
+    if sa is None:
+        return None, None
+    if form == "scalar":                       # same kind of scalar for the end
+        sub = fa.split(":")[1]
+        if sub == "np.float32":
+            v = _f32_vals(en, units)
+            ea = None if v is None else v[0]
+        elif sub in ("py_int", "np.int64", "np.uint8"):
+            v = _int_vals(en, units, "uint8" if sub == "np.uint8" else "int64")
+            ea = None if v is None else (int(v[0]) if sub == "py_int" else v[0])
+        else:
+            ea = type(sa)(_unit_floats(en, units)[0])
+        if sub in ("py_float", "np.float64") and rng.random() < 0.3:
+            sa, ea, fa = np.array(float(sa)), np.array(float(ea)), "scalar:0d"
+    elif form == "small_int":
+        ea = _int_vals(en, units, fa.split(":")[1])
+    else:
+        ea, _ = _time_arg(nap, form, units, en, rng)
+    if ea is None:
+        return None, None
+    return nap.IntervalSet(sa, ea, **kw), fa
+
+
+def _pick_iset(nap, ep, rng, tmpdir=None):
+    """an IntervalSet holding `ep`, through a sampled argument form and unit; one time in four it is then the RESULT of one more
+    IntervalSet operation (axis 8 for the argument): intersected / united with itself, cut out of a longer set, saved and loaded"""
+    for _ in range(6):
+        form = "scalar" if len(ep) == 1 and rng.random() < 0.25 else rng.choice(EP_FORMS)
+        units = rng.choice(["s", "s", "ms", "us"])
+        if form in ("int64", "uint64", "small_int", "list_int") and rng.random() < 0.7:
+            units = "us"
+        o, fname = _iset_arg(nap, form, units, ep, rng)
+        if o is None:
+            continue
+        r = rng.random()
+        try:
+            if r < 0.07:
+                o, fname = o.intersect(o), fname + "+self_intersect"
+            elif r < 0.13:
+                o, fname = o.union(o), fname + "+self_union"
+            elif r < 0.20 and form != "scalar":
+                last = max([b for _, b in ep] + [0])
+                longer, _ = _iset_arg(nap, form, units, list(ep) + [(last + 3 * 10**9, last + 6 * 10**9)], rng)
+                if longer is not None and len(longer) == len(ep) + 1:
+                    o, fname = longer[:len(ep)], fname + "+sliced"
+            elif r < 0.24 and tmpdir is not None:
+                path = os.path.join(tmpdir, "ep.npz")
+                o.save(path)
+                o, fname = nap.load_file(path), fname + "+saveload"
+        except Exception:
+            pass            # the extra operation is not this property's: keep the set as built
+        return o, fname, units
+    return _iset(nap, ep), "arrays", "s"
+
+
+class _Lazy:
+    """a minimal lazily-loaded array-like (what h5py / zarr datasets look like): handed over with load_array=False"""
+
+    def __init__(self, a):
+        self._a, self.shape, self.dtype, self.ndim = a, a.shape, a.dtype, a.ndim
+
+    def __getitem__(self, k):
+        return self._a[k]
+
+    def __len__(self):
+        return len(self._a)
+
+    def __iter__(self):
+        return iter(self._a)
+
+
+def _vals(x):
+    """the data of x as an ndarray (lazily loaded data is read)"""
+    v = x.values
+    return v if isinstance(v, np.ndarray) else np.asarray(v[:])
+
+
+def _ivals(iset):
+    return [(C.to_ns(a), C.to_ns(b)) for a, b in iset.values]
+
+
+def _same(a, b):
+    """same dtype, same shape, same entries (NaN matches NaN)"""
+    a, b = np.asarray(a), np.asarray(b)
+    if a.dtype != b.dtype or a.shape != b.shape:
+        return False
+    with np.errstate(all="ignore"):
+        return bool(np.all((a == b) | ((a != a) & (b != b))))
+
+
+def _data(name, n, dtype, content, shape_tail, rng):
+    """the data array of an n-sample object of class `name`: dtype and content as requested, rows pairwise distinct where the dtype allows"""
+    shape = (n,) + tuple(shape_tail)
+    size = int(np.prod(shape))
+    base = np.arange(size).reshape(shape)
+    dt = np.dtype(dtype)
+    if content == "all_equal":
+        return np.full(shape, 1 if dt.kind == "b" else 7).astype(dt)
+    if content == "zeros":
+        return np.zeros(shape, dtype=dt)
+    if dt.kind == "b":
+        d = (base % 3 == 0)
+    elif dt.kind == "f":
+        d = (base + 100.5).astype(dt)
+        if content == "nan_inf" and size:
+            flat = d.reshape(-1)
+            bad = [np.nan, np.inf, -np.inf]
+            k0 = rng.randrange(4)
+            for i in range(size):
+                if (i + k0) % 4 < 3:
+                    flat[i] = bad[(i + k0) % 4]
+    else:
+        d = (base % 120 + 1).astype(dt)
+    if content == "strided" and n:
+        big = np.zeros((2 * n,) + tuple(shape_tail), dtype=dt, order="F" if len(shape) > 1 else "C")
+        big[::2] = d
+        big[1::2] = d[::-1]
+        return big[::2]                 # a non-contiguous view that shares memory with `big`
+    return d
+
+
+def _construct(nap, name, targ, d, units="s", sup=None, style="kw", cols=None, meta=None, pandas_obj=None):
+    """build an object of class `name`; `style` = how the public parameters are passed"""
+    cls = getattr(nap, name)
+    if isinstance(d, _Lazy):
+        if name == "TsdFrame":
+            return cls(targ, d, units, sup, cols, False, meta) if style == "positional" else \
+                cls(targ, d, time_units=units, time_support=sup, columns=cols, load_array=False, metadata=meta)
+        return cls(targ, d, units, sup, False) if style == "positional" else cls(targ, d, time_units=units, time_support=sup, load_array=False)
+    if pandas_obj is not None:              # Tsd(pd.Series) / TsdFrame(pd.DataFrame): time and data in one pandas object
+        kw = {"time_units": units, "time_support": sup}
+        if name == "TsdFrame" and meta is not None:
+            kw["metadata"] = meta
+        if style == "positional":
+            return cls(pandas_obj, None, units, sup) if name == "Tsd" else cls(pandas_obj, None, units, sup, None, True, meta)
+        return cls(pandas_obj, **kw)
+    if style == "positional":
+        if name == "Ts":
+            return cls(targ, units, sup)
+        if name == "TsdFrame":
+            return cls(targ, d, units, sup, cols, True, meta)
+        return cls(targ, d, units, sup, True)
+    kw = {}
+    if units != "s" or style != "kw":
+        kw["time_units"] = units
+    if sup is not None or style != "kw":    # time_support=None spelt out = the documented default
+        kw["time_support"] = sup
+    if name == "TsdFrame":
+        if cols is not None or style == "all_kw":
+            kw["columns"] = cols
+        if meta is not None or style == "all_kw":
+            kw["metadata"] = meta
+    if style == "all_kw":
+        if name == "Ts":
+            return cls(t=targ, **kw)
+        return cls(d=d, t=targ, load_array=False, **kw)
+    return cls(targ, **kw) if name == "Ts" else cls(targ, d, **kw)
+
+
+def _labels(x):
+    """column labels and metadata of a TsdFrame as plain comparable data (None for the other classes)"""
+    if not hasattr(x, "columns"):
+        return None
+    md = x.metadata
+    return ([(type(c).__name__, c) for c in x.columns], str(x.columns.dtype), list(md.columns), [list(md.index)] +
+            [[repr(v) for v in md[c]] for c in md.columns])
+
+
+def _snapshot(x):
+    """everything the statement speaks about, read off the live object x"""
+    return {"cls": type(x).__name__, "t": _ticks(x.t), "v": (np.array(_vals(x), copy=True) if hasattr(x, "values") else None),
+            "sup": _sup(x), "labels": _labels(x)}
+
+
+def _check(x0, r, ep):
+    """r = (object with snapshot x0).restrict(ep): the clauses of the statement, brute force. Returns the failing part or None."""
+    keep = [i for i, tk in enumerate(x0["t"]) if G.mem(tk, ep)]
+    if type(r).__name__ != x0["cls"]:
+        return "class"
+    if _ticks(r.t) != [x0["t"][i] for i in keep]:
+        return "samples"
+    if x0["v"] is not None and not _same(_vals(r), x0["v"][keep]):
+        return "rows"
+    if _sup(r) != (list(ep) if keep else []):
+        return "support"
+    if _labels(r) != x0["labels"]:
+        return "labels"
+    return None
+
+
+def _history(nap, name, o, h, ts, epo2, tmpdir):
+    """x = the object the receiver becomes after one more public operation (None: not applicable to this object)"""
+    n = len(ts)
+    if h == "none":
+        return o
+    if h == "own_support":      # restricted by its own live time_support first
+        return o.restrict(o.time_support)
+    if h == "restrict_ep2":
+        return o.restrict(epo2)
+    if h == "copy":
+        return o.copy()
+    if h == "slice":
+        return o[1:] if n else None
+    if h == "step":
+        return o[::2] if n else None
+    if h == "mask":
+        return o[np.array([i % 3 != 1 for i in range(n)])] if n else None
+    if h == "intidx":
+        return o[np.array([i for i in range(n) if i % 3 != 1], dtype=np.int64)] if n else None
+    if h == "get":
+        if n < 2:
+            return None
+        t = G.arr(ts)
+        return o.get(float(t[n // 4]), float(t[-1 - n // 4]))
+    if h == "fillna":
+        return o.fillna(3) if name == "Ts" else None
+    if name == "Ts":
+        return None
+    if h == "arith":
+        return o * 2
+    if h == "numpy":
+        return np.add(o, 1)
+    if h == "dropna":
+        return o.dropna() if o.values.dtype.kind == "f" and n else None
+    if h == "saveload":
+        import os
+        p = os.path.join(tmpdir, "x.npz")
+        o.save(p)
+        return nap.load_file(p)
+    if h == "columns":
+        if name != "TsdFrame" or o.shape[1] < 2 or len(set(o.columns)) != o.shape[1]:
+            return None
+        return o.loc[[o.columns[-1], o.columns[0]]]
+    if h == "component":
+        if name == "Tsd" or n == 0 or o.values.shape[1] == 0:
+            return None
+        return o[:, 0]
+    raise ValueError(h)
+
+
+def forms_case(nap, ts0, ep0, ep20, rng, res, tmpdir, counter, ctx=None):
+    """One receiver class, every argument form sampled: returns a violation dict or None."""
+    import pandas as pd
+    # axis 5: placement (whole-ms / whole-s lattices, +-1e5 s offsets)
+    scale, off = rng.choice(PLACEMENTS)
+    ts = [x * scale + off for x in ts0]
+    ep = [(a * scale + off, b * scale + off) for a, b in ep0]
+    ep2 = [(a * scale + off, b * scale + off) for a, b in ep20]
+    if ts and rng.random() < 0.08:
+        ts = [ts[rng.randrange(len(ts))]]           # more one-sample series (the scalar forms of t need them)
+    n = len(ts)
+    name = CLASSES[counter % 4]
+    # axis 2/4: form and unit of the timestamps
+    forms = [f for f in T_FORMS if not (f == "pandas" and name in ("Ts", "TsdTensor"))] + (["pd.Series"] if name in ("Ts", "TsdTensor") else [])
+    if n == 1 and rng.random() < 0.5:
+        forms = ["scalar"]
+    pandas_form = False
+    tform = rng.choice(forms)
+    if tform == "pandas":
+        pandas_form, units = True, rng.choice(["s", "ms", "us"])
+        targ, tname = _unit_floats(ts, units), "pandas"
+    else:
+        targ, tname, units = _pick_time_arg(nap, ts, rng, [f for f in forms if f != "pandas"], allow_units=True)
+    # axis 1: dtype and content of the data; axis 7: labels / shapes
+    dtype, content = rng.choice(DATA_DTYPES), rng.choice(CONTENTS)
+    if content == "nan_inf":
+        dtype = rng.choice(["float64", "float32"])
+    if content == "time_alias" and name == "Tsd" and not pandas_form and type(targ) is not np.ndarray:
+        targ, tname = _unit_floats(ts, units), "ndarray"
+    cols, meta, tail = None, None, ()
+    if name == "TsdFrame":
+        cols = rng.choice(COLUMN_FORMS)
+        ncol = 3 if cols is None else len(cols)
+        tail = () if (cols == ["x"] and not pandas_form and rng.random() < 0.5) else (ncol,)     # a 1-D d becomes one column
+        mform = rng.choice(["dict", "frame", None])
+        if ncol and len(set(cols or [0, 1, 2])) == ncol and mform:
+            meta = {"m": [7 + i for i in range(ncol)], "lab": ["u%d" % i for i in range(ncol)]}
+            if mform == "frame":
+                meta = pd.DataFrame(meta, index=(cols if cols is not None else [0, 1, 2]))
+    elif name == "TsdTensor":
+        tail = rng.choice(TENSOR_SHAPES)
+    d = None
+    if name != "Ts":
+        if content == "time_alias":
+            if name == "Tsd" and type(targ) is np.ndarray and targ.ndim == 1 and not pandas_form:
+                d, dtype = targ, str(targ.dtype)        # the data IS the time argument (shared memory)
+            else:
+                content = "index"
+        if d is None:
+            if content == "py_list":
+                dtype = rng.choice(["float64", "int64", "bool"])
+            d = _data(name, n, dtype, "index" if content in ("lazy", "py_list") else content, tail, rng)
+    d0 = None if d is None else np.array(d, copy=True)
+    if d0 is not None and name == "TsdFrame" and d0.ndim == 1:
+        d0 = d0[:, None]
+    darg = d
+    if content == "lazy":
+        if d is None or pandas_form or d.ndim != len(d0.shape):
+            content = "index"
+        else:
+            darg = _Lazy(d)
+    if content == "py_list":        # the data as a (nested) Python list: numpy's default dtype for it must be the one we meant
+        if d is None or pandas_form or d.size == 0 or np.array(d.tolist()).dtype != d.dtype:
+            content = "index"
+        else:
+            darg = d.tolist()
+    pobj = None
+    if pandas_form:
+        pobj = pd.Series(d, index=targ) if name == "Tsd" else pd.DataFrame(d, index=targ, columns=cols)
+        d0 = np.array(pobj.values, copy=True)       # the rows handed over are the pandas object's (a frame without columns has no dtype of its own)
+    style = rng.choice(["kw", "positional", "all_kw"])
+    if content == "py_list" and style == "all_kw":
+        style = "kw"            # all_kw passes load_array=False, which is documented to need an array-like: a list is not one
+    rstyle = rng.choice(["positional", "keyword"])
+    hist = rng.choice(HISTORIES)
+    epo, epname, epunits = _pick_iset(nap, ep, rng, tmpdir)
+    epo2, ep2name, _ = _pick_iset(nap, ep2, rng, tmpdir)
+    trig = {"forms": True, "cls": name, "t_form": tname, "units": units, "ep_form": epname, "ep_units": epunits, "dtype": str(dtype),
+            "content": content, "history": hist, "ctor_style": style, "restrict_style": rstyle, "placement": "x%d%+d" % (scale, off),
+            "empty_series": n == 0, "sample_on_endpoint": _on_endpoint(ts, ep)}
+    inp = {"ts": ts, "ep": ep, "ep2": ep2, "forms": dict(trig, columns=cols, shape_tail=list(tail), ep2_form=ep2name,
+                                                         metadata=(None if meta is None else type(meta).__name__))}
+    if ctx is not None:
+        ctx.update(inp)
+
+    def viol(op, part, what, **more):
+        k = {"op": op, "part": part}
+        k.update(trig)
+        return dict({"key": k, "what": what, "input": inp}, **more)
+
+    if res is not None:
+        for a, b in (("cls", name), ("t_form", tname), ("t_units", units), ("ep_form", epname.split("+")[0]), ("ep_derived", (epname.split("+") + ["no"])[1]),
+                     ("ep_units", epunits), ("ctor_style", style), ("restrict_style", rstyle), ("placement", trig["placement"])):
+            res.count("forms_%s=%s" % (a, b))
+        if name != "Ts":
+            res.count("forms_dtype=%s" % dtype)
+            res.count("forms_content=%s" % content)
+        if name == "TsdFrame":
+            res.count("forms_columns=%s" % (cols,))
+            res.count("forms_metadata=%s" % (None if meta is None else type(meta).__name__))
+        if name == "TsdTensor":
+            res.count("forms_tensor_shape=%s" % (tail,))
+        res.count("forms_n_samples=%s" % ("0" if n == 0 else "1" if n == 1 else "all_equal" if ts[0] == ts[-1] else "many"))
+        res.count("forms_n_intervals=%s" % min(len(ep), 3))
+
+    def restrict(x, e):
+        return x.restrict(e) if rstyle == "positional" else x.restrict(iset=e)
+
+    def build(sup):
+        return _construct(nap, name, targ, darg, units, sup, style, cols, meta, pobj)
+
+    # the IntervalSets mean the intended intervals whatever form they were given in (else the oracle below would be about another set)
+    if _ivals(epo) != list(ep) or _ivals(epo2) != list(ep2):
+        return viol("IntervalSet", "form", "an IntervalSet built from this argument form does not hold the intended intervals",
+                    impl=[_ivals(epo), _ivals(epo2)], expected=[list(ep), list(ep2)])
+    ep_before = (np.array(epo.values, copy=True), list(epo.metadata.columns))
+    o = build(None)
+    exp_i = oracle_idx(ts, ep)
+    exp_t = [ts[i] for i in exp_i]
+    o_snap = _snapshot(o)
+    # receiver holds the intended instants and rows (so that "its own data row" below is about the rows we gave)
+    if o_snap["t"] != list(ts) or (d0 is not None and not _same(o_snap["v"], d0)):
+        return viol(name, "construct", "constructing in this argument form does not give the intended timestamps / rows / dtype",
+                    impl=o_snap["t"], expected=list(ts))
+    # constructor(time_support=ep) = construct, then restrict
+    c = build(epo)
+    c2 = restrict(build(None), epo)
+    for lab, obj in (("constructor with time_support", c), ("construct-then-restrict", c2)):
+        if _ticks(obj.t) != exp_t:
+            return viol(name + "(time_support=)", "samples", "constructor with time_support / construct-then-restrict: %s selects the wrong samples" % lab,
+                        impl=_ticks(obj.t), expected=exp_t)
+        if d0 is not None and not _same(_vals(obj), d0[exp_i]):
+            return viol(name + "(time_support=)", "rows", "constructor with time_support / construct-then-restrict: %s does not keep each sample's own row (values or dtype)" % lab,
+                        impl=[str(_vals(obj).dtype), _vals(obj).tolist()], expected=[str(d0.dtype), d0[exp_i].tolist()])
+    if _sup(c) != (list(ep) if n else []) or _labels(c) != _labels(c2):
+        return viol(name + "(time_support=)", "support", "constructor with time_support: wrong time support or labels", impl=_sup(c))
+    # multi-step history: x is what the receiver became
+    x = o
+    if hist != "none":
+        try:
+            x = _history(nap, name, o, hist, ts, epo2, tmpdir)
+        except Exception:
+            x = None
+        if x is None or not hasattr(x, "restrict") or not hasattr(x, "time_support"):
+            x, hist = o, "none"
+            trig["history"] = "none"
+    if res is not None:
+        res.count("forms_history=%s" % hist)
+    x0 = _snapshot(x)
+    r = restrict(x, epo)
+    part = _check(x0, r, ep)
+    if part:
+        return viol(x0["cls"] + ".restrict", part, "restrict: the %s clause of the statement fails" % part, impl=_ticks(r.t),
+                    expected=[tk for tk in x0["t"] if G.mem(tk, ep)], receiver=x0["t"])
+    # the same live receiver and argument used again: nothing was modified, the answer is the same
+    x1 = _snapshot(x)
+    if x1["t"] != x0["t"] or x1["sup"] != x0["sup"] or x1["labels"] != x0["labels"] or (x0["v"] is not None and not _same(x1["v"], x0["v"])) \
+            or not np.array_equal(epo.values, ep_before[0]) or list(epo.metadata.columns) != ep_before[1] \
+            or (d0 is not None and not _same(np.asarray(d if pobj is None else pobj.values).reshape(d0.shape), d0)):
+        return viol(x0["cls"] + ".restrict", "receiver_modified", "restrict modified its receiver, its argument or the caller's data array")
+    part = _check(x0, restrict(x, epo), ep)
+    if part:
+        return viol(x0["cls"] + ".restrict", "second_use_" + part, "the same live object restricted a second time gives another answer")
+    # idempotence
+    r0 = _snapshot(r)
+    rr = restrict(r, epo)
+    if _check(r0, rr, ep) or _ticks(rr.t) != r0["t"] or _sup(rr) != r0["sup"]:
+        return viol(x0["cls"] + ".restrict", "idempotence", "restricting twice by ep changes the samples, the rows, the labels or the support")
+    # composition
+    keep2 = [i for i, tk in enumerate(x0["t"]) if G.mem(tk, ep) and G.mem(tk, ep2)]
+    r2 = restrict(r, epo2)
+    if _check(r0, r2, ep2) or _ticks(r2.t) != [x0["t"][i] for i in keep2] or (x0["v"] is not None and not _same(_vals(r2), x0["v"][keep2])):
+        return viol(x0["cls"] + ".restrict", "compose", "restrict(a).restrict(b) is not the samples (rows, support) inside both a and b",
+                    impl=_ticks(r2.t), expected=[x0["t"][i] for i in keep2])
+    endpoints = set(p for iv in list(ep) + list(ep2) for p in iv)
+    ri = restrict(x, epo.intersect(epo2))
+    rit = _ticks(ri.t)
+    got = [(tk, (None if x0["v"] is None else repr(np.asarray(_vals(ri)[j]).tolist()))) for j, tk in enumerate(rit) if _far(tk, endpoints)]
+    want = [(x0["t"][i], (None if x0["v"] is None else repr(np.asarray(x0["v"][i]).tolist()))) for i in keep2 if _far(x0["t"][i], endpoints)]
+    if got != want:
+        return viol(x0["cls"] + ".restrict", "compose_intersect",
+                    "restrict(a).restrict(b) and restrict(a.intersect(b)) differ on a sample farther than 1us from every endpoint",
+                    impl=[g[0] for g in got], expected=[w[0] for w in want])
+    return None
+
+
+KEY_FORMS = ["ints_unsorted", "str_float", "list", "np_int", "multi_digit"]
+MEMBER_KINDS = ["Ts", "Tsd", "Tsd", "raw_array", "raw_list", "empty"]
+
+
+def group_forms(nap, ts0, ep0, ep20, rng, res, tmpdir, ctx=None):
+    """TsGroup.restrict member-wise on every form of group: keys, member kinds (Ts, Tsd of any dtype, raw arrays/lists in s/ms/us, an empty
+    member, no member at all), support given / default / bypass_check, metadata forms, positional / keyword calls, one more operation before."""
+    import pandas as pd
+    scale, off = rng.choice(PLACEMENTS)
+    ts = [x * scale + off for x in ts0]
+    ep = [(a * scale + off, b * scale + off) for a, b in ep0]
+    ep2 = [(a * scale + off, b * scale + off) for a, b in ep20]
+    n = len(ts)
+    units = rng.choice(["s", "ms", "us"])
+    kform = rng.choice(KEY_FORMS)
+    nmem = rng.choice([0, 1, 2, 3, 3, 3])
+    keysets = {"ints_unsorted": [3, 1, 2], "str_float": ["12", 7.0, 0], "list": [0, 1, 2], "np_int": [np.int64(40), np.int32(5), np.uint8(200)],
+               "multi_digit": ["1000", 10, "100"]}
+    keys = keysets[kform][:nmem]
+    subs = [ts, ts[:max(1, n // 2)] if n else [], ts[::2]]
+    members, inputs, kinds = {}, {}, []
+    for j, k in enumerate(keys):
+        kind = rng.choice(MEMBER_KINDS)
+        mt = [] if kind == "empty" else list(subs[j])
+        kinds.append(kind)
+        if kind == "Tsd":
+            dt = rng.choice(DATA_DTYPES)
+            dd = _data("Tsd", len(mt), dt, rng.choice(["index", "nan_inf"]) if np.dtype(dt).kind == "f" else "index", (), rng)
+            members[k] = nap.Tsd(G.arr(mt), dd)
+            inputs[int(k)] = ("Tsd", mt, np.array(dd, copy=True))
+        elif kind == "raw_array":
+            members[k] = _unit_floats(mt, units)
+            inputs[int(k)] = ("Ts", mt, None)
+        elif kind == "raw_list":
+            members[k] = [float(v) for v in _unit_floats(mt, units)]
+            inputs[int(k)] = ("Ts", mt, None)
+        else:
+            members[k] = nap.Ts(G.arr(mt))
+            inputs[int(k)] = ("Ts", mt, None)
+    data = list(members.values()) if kform == "list" else members
+    pts = list(ts) + [p for iv in list(ep) + list(ep2) for p in iv] + [0]
+    lo, hi = min(pts) - 10**9, max(pts) + 10**9
+    supports = ["wide", "ep2", "complement_of_ep"]
+    has_span = any(m[1] and m[1][0] < m[1][-1] for m in inputs.values())
+    if has_span:
+        supports.append("default")      # the union of the members' default [first, last] supports (non-empty)
+    sform = rng.choice(supports)
+    if sform == "complement_of_ep" and not ep:
+        sform = "wide"
+    if sform == "wide":
+        sup = [(lo, hi)]
+    elif sform == "ep2":
+        sup = list(ep2)
+    elif sform == "complement_of_ep":
+        b = [lo] + [p for iv in ep for p in iv] + [hi]
+        sup = list(zip(b[0::2], b[1::2]))
+    else:
+        sup = None
+    bypass = rng.random() < 0.3
+    mform = rng.choice(["dict", "frame", "kwargs", None]) if nmem else None
+    gstyle = rng.choice(["kw", "positional"])
+    rstyle = rng.choice(["positional", "keyword"])
+    hist = rng.choice(["none", "none", "subset", "boolmask", "saveload", "restrict_ep2"])
+    epo, epname, epunits = _pick_iset(nap, ep, rng, tmpdir)
+    supo = None
+    if sup is not None:
+        supo, _, _ = _pick_iset(nap, sup, rng, tmpdir)
+    int_keys = sorted(int(k) for k in keys)
+    labs = ["L%d" % i for i in range(nmem)]
+    kwargs, meta = {}, None
+    if mform == "dict":
+        meta = {"lab": labs, "num": list(range(nmem))}
+    elif mform == "frame":
+        meta = pd.DataFrame({"lab": labs, "num": list(range(nmem))}, index=int_keys)
+    elif mform == "kwargs":
+        kwargs = {"lab": np.array(labs)}
+    trig = {"forms": True, "keys": kform, "n_members": nmem, "member_kinds": "+".join(sorted(set(kinds))), "units": units, "group_support": sform,
+            "bypass_check": bypass, "metadata": mform, "ctor_style": gstyle, "restrict_style": rstyle, "history": hist, "ep_form": epname,
+            "ep_units": epunits, "placement": "x%d%+d" % (scale, off), "empty_series": n == 0}
+    inp = {"ts": ts, "ep": ep, "ep2": ep2, "forms": dict(trig, keys=[repr(k) for k in keys], member_kinds=kinds, support=sup)}
+    if ctx is not None:
+        ctx.update(inp)
+
+    def viol(part, what, **more):
+        k = {"op": "TsGroup.restrict", "part": part}
+        k.update(trig)
+        return dict({"key": k, "what": what, "input": inp}, **more)
+
+    if res is not None:
+        for a in ("keys", "n_members", "units", "group_support", "bypass_check", "metadata", "ctor_style", "restrict_style"):
+            res.count("gforms_%s=%s" % (a, trig[a]))
+        res.count("gforms_ep_form=%s" % epname.split("+")[0])
+        res.count("gforms_ep_derived=%s" % (epname.split("+") + ["no"])[1])
+        for kd in kinds:
+            res.count("gforms_member=%s" % kd)
+    if _ivals(epo) != list(ep) or (supo is not None and _ivals(supo) != list(sup)):
+        return viol("form", "an IntervalSet built from this argument form does not hold the intended intervals")
+    if gstyle == "positional" and not kwargs:
+        g = nap.TsGroup(data, supo, units, bypass, meta)
+    else:
+        g = nap.TsGroup(data, time_support=supo, time_units=units, bypass_check=bypass, metadata=meta, **kwargs)
+    if list(g.keys()) != int_keys:
+        return viol("keys", "the group does not hold the keys it was given", impl=list(g.keys()), expected=int_keys)
+    # constructor clause, member-wise: TsGroup(data, time_support=sup)[k] = the samples of data[k] inside sup (rows intact).
+    # (bypass_check=True promises nothing about members that were already objects: not checked then)
+    for k in int_keys:
+        cls, mt, dd = inputs[k]
+        raw = dd is None and not isinstance(members[[q for q in keys if int(q) == k][0]], nap.Ts)
+        if sup is not None and (raw or not bypass):
+            keep = [i for i, tk in enumerate(mt) if G.mem(tk, sup)]
+        elif sup is None and not bypass and all(m[1] and m[1][0] < m[1][-1] for m in inputs.values()):
+            keep = list(range(len(mt)))     # default support = union of the members' [first, last]: nothing to drop
+        else:
+            continue
+        if type(g[k]).__name__ != cls or _ticks(g[k].t) != [mt[i] for i in keep] or (dd is not None and not _same(g[k].values, dd[keep])):
+            return viol("construct", "TsGroup(data, time_support=sup)[k] is not the samples of data[k] inside sup (time_units=%s)" % units,
+                        member=k, impl=_ticks(g[k].t), expected=[mt[i] for i in keep])
+    x = g
+    if hist != "none" and nmem:
+        try:
+            if hist == "subset":
+                x = g[[int_keys[-1], int_keys[0]]] if nmem > 1 else g[[int_keys[0]]]
+            elif hist == "boolmask":
+                x = g[np.array([i % 2 == 0 for i in range(nmem)])]
+            elif hist == "restrict_ep2":
+                x = g.restrict(_iset(nap, ep2))
+            elif hist == "saveload":
+                import os
+                p = os.path.join(tmpdir, "g.npz")
+                g.save(p)
+                x = nap.load_file(p)
+        except Exception:
+            x, hist = g, "none"
+        if not isinstance(x, nap.TsGroup):
+            x, hist = g, "none"
+    else:
+        hist = "none"
+    trig["history"] = hist
+    if res is not None:
+        res.count("gforms_history=%s" % hist)
+    xkeys = list(x.keys())
+    before = {k: _snapshot(x[k]) for k in xkeys}
+    meta_before = x.metadata.drop(columns="rate")
+    for use in ("first", "second"):         # the same live group and argument twice
+        rg = x.restrict(epo) if rstyle == "positional" else x.restrict(ep=epo)
+        if not isinstance(rg, nap.TsGroup) or list(rg.keys()) != xkeys:
+            return viol("keys", "keys changed (%s use)" % use, impl=list(rg.keys()), expected=xkeys)
+        md = rg.metadata.drop(columns="rate")
+        if list(md.columns) != list(meta_before.columns) or list(md.index) != list(meta_before.index) or \
+                any([repr(v) for v in md[c]] != [repr(v) for v in meta_before[c]] for c in md.columns):
+            return viol("metadata", "group metadata changed (%s use)" % use)
+        survivors = 0
+        for k in xkeys:
+            part = _check(before[k], rg[k], ep)
+            survivors += len(rg[k].t)
+            if part:
+                return viol({"support": "member_support"}.get(part, part), "group.restrict(ep)[k]: the %s clause fails (%s use of the live group)" % (part, use),
+                            member=k, member_samples=before[k]["t"], impl=_ticks(rg[k].t), expected=[tk for tk in before[k]["t"] if G.mem(tk, ep)])
+        if _sup(rg) != list(ep) and (survivors or _sup(rg) != []):
+            return viol("support", "group support is not ep", impl=_sup(rg))
+        if any(_snapshot(x[k])["t"] != before[k]["t"] or _sup(x[k]) != before[k]["sup"] for k in xkeys):
+            return viol("receiver_modified", "restrict modified the members of its receiver")
+    return None
+
+
+def run_forms(nap, which, ts, ep, ep2, fseed, counter, res, tmpdir):
+    """one widened case (`which` = forms | group_forms), every choice drawn from random.Random(fseed); the violation carries what replay needs"""
+    ctx = {}
+    try:
+        if which == "forms":
+            fv = forms_case(nap, ts, ep, ep2, random.Random(fseed), res, tmpdir, counter, ctx)
+        else:
+            fv = group_forms(nap, ts, ep, ep2, random.Random(fseed), res, tmpdir, ctx)
+    except Exception as ex:
+        fk = {"op": which, "part": "exception", "exception": type(ex).__name__, "forms": True}
+        fk.update({a: b for a, b in ctx.get("forms", {}).items() if isinstance(b, (str, bool, int)) or b is None})
+        fv = {"key": fk, "what": "public restrict/constructor raised %s on a widened argument form: %s" % (type(ex).__name__, str(ex)[:160]),
+              "input": dict(ctx) or {"ts": ts, "ep": ep, "ep2": ep2}}
+    if fv:
+        fv["input"] = dict(fv["input"], forms_replay={"which": which, "ts0": ts, "ep0": ep, "ep20": ep2, "fseed": fseed, "counter": counter})
+    return fv
+
+
+def misuse_cases(nap, res):
+    """Arguments the documented signatures do not accept: the statement does not say what happens, so only
+    'raises a clean Python exception, or satisfies the statement' is required."""
+    t = G.arr([0, 1000, 2000, 3000])
+    ep = [(1000, 2000)]
+    objs = {"Ts": nap.Ts(t), "Tsd": nap.Tsd(t, np.arange(4)), "TsdFrame": nap.TsdFrame(t, np.arange(8).reshape(4, 2)),
+            "TsdTensor": nap.TsdTensor(t, np.arange(16).reshape(4, 2, 2)), "TsGroup": nap.TsGroup({1: nap.Ts(t), 2: nap.Ts(t[:2])})}
+    bad = {"list_of_pairs": [[1e-6, 2e-6]], "ndarray": np.array([[1e-6, 2e-6]]), "tuple": (1e-6, 2e-6), "None": None, "Ts": nap.Ts(t), "scalar": 1e-6}
+    out = []
+    for name, o in objs.items():
+        for bname, b in bad.items():
+            res.count("misuse_restrict_arg=%s" % bname)
+            try:
+                r = o.restrict(b)
+            except Exception:
+                continue
+            pairs = [(o[k], r[k]) for k in o.keys()] if name == "TsGroup" else [(o, r)]
+            if any(_ticks(b_.t) != [x for x in _ticks(a_.t) if G.mem(x, ep)] or _sup(b_) != ep for a_, b_ in pairs):
+                out.append({"key": {"op": name + ".restrict", "part": "misuse", "arg": bname},
+                            "what": "restrict accepted a non-IntervalSet argument and returned something that is not the restriction", "input": {"arg": bname}})
+    for name in CLASSES:            # a 0-d array as t
+        res.count("misuse_t=0d_array")
+        try:
+            o = _construct(nap, name, np.array(1e-6), None if name == "Ts" else np.zeros((1,) + {"Tsd": (), "TsdFrame": (2,), "TsdTensor": (2, 2)}[name]),
+                           sup=_iset(nap, ep))
+        except Exception:
+            continue
+        if _ticks(o.t) != [1000] or _sup(o) != ep:
+            out.append({"key": {"op": name + "(time_support=)", "part": "misuse", "arg": "0d_t"}, "what": "0-d t accepted but the object is not the single sample",
+                        "input": {"arg": "0d"}})
+    return out
+
+
 def search(res, seed):
     r2 = C.Result()
     run(r2, "thorough", seed)
@@ -337,6 +1155,15 @@ def replay(payload):
     inp = v.get("input", {})
     ts, ep = inp.get("ts", []), [tuple(x) for x in inp.get("ep", [])]
     ep2 = [tuple(x) for x in inp["ep2"]] if "ep2" in inp else None
+    if "forms_replay" in inp:       # a widened-form case: re-drawn from its own seed
+        fr = inp["forms_replay"]
+        warnings.simplefilter("ignore")
+        os.makedirs(C.CACHE, exist_ok=True)
+        tmpdir = tempfile.mkdtemp(prefix="c03-", dir=C.CACHE)
+        fv = run_forms(nap, fr["which"], fr["ts0"], [tuple(x) for x in fr["ep0"]], [tuple(x) for x in fr["ep20"]], fr["fseed"], fr["counter"], None, tmpdir)
+        shutil.rmtree(tmpdir, ignore_errors=True)
+        print("widened forms:", None if not fv else {"key": fv["key"], "what": fv["what"], "impl": fv.get("impl"), "expected": fv.get("expected")})
+        return 1 if fv else 0
     t, st, en = G.arr(ts), G.arr([s for s, _ in ep]), G.arr([e for _, e in ep])
     idx = list(map(int, J.jitrestrict(t, st, en)))
     print("input ts=%s ep=%s" % (ts, ep))
